@@ -290,6 +290,9 @@ func (vc *VC) runTop(sc splitCase) error {
 	st := &State{pc: B.True(), heap: map[string]*Term{}, cells: map[string]Value{}, lenv: map[ssa.Value]Value{}}
 	args := vc.bindParams(f, st, sc)
 	vc.applyBinds(f, st)
+	for _, g := range vc.c.GhostParams {
+		f.names[g] = CV{VT{B.Fresh("ghost_"+g, SInt)}, nil}
+	}
 	entry := st.clone()
 	ctx := f.newCtx(st, entry)
 	for _, l := range vc.c.Lets {
@@ -306,6 +309,14 @@ func (vc *VC) runTop(sc splitCase) error {
 		}
 		vc.fact(g)
 		vc.note("axiom: %s", a.Text)
+	}
+	for _, a := range vc.c.Defs {
+		g, err := ctx.evalBoolSafe(a.E)
+		if err != nil {
+			return fmt.Errorf("%s: define: %v", a.Pos, err)
+		}
+		vc.fact(g)
+		vc.note("definitional axiom (recursive definition of a spec function over the entry memory; consistent because it is a primitive recursion): %s", a.Text)
 	}
 	ctx.declareRegions = true
 	ctx.assumeMode = true // poolfree(...) in a precondition is an assumption about the caller's state
@@ -591,7 +602,7 @@ func (e *Engine) discharge(obls []*Obligation) {
 			if o.Cover && to > 3 {
 				to = 3
 			}
-			var script, qf, inst string
+			var script, qf, inst, inst2 string
 			var names []string
 			if o.RawScript != "" {
 				o.Res = solve(o.Name, o.RawScript, e.timeout, e.all)
@@ -617,13 +628,19 @@ func (e *Engine) discharge(obls []*Obligation) {
 					o.wantInst = true
 					o.scriptWith(nil)
 					o.wantInst = false
-					if as, ok := instantiateQuery(o.vc.B, o.instAsserts, o.vc.B.Not(o.Goal)); ok {
+					if as, ok := instantiateQuery(o.vc.B, o.instAsserts, o.vc.B.Not(o.Goal), false); ok {
 						inst = o.vc.B.Query(as, nil)
+						if as2, ok := instantiateQuery(o.vc.B, o.instAsserts, o.vc.B.Not(o.Goal), true); ok && len(as2) != len(as) {
+							inst2 = o.vc.B.Query(as2, nil)
+						}
 					}
 					o.instAsserts = nil
 				})
-				if inst != "" {
-					r := solve(o.Name+"_inst", inst, 10, false)
+				for _, q := range []string{inst, inst2} {
+					if q == "" {
+						continue
+					}
+					r := solve(o.Name+"_inst", q, 10, false)
 					if r.Verdict == "unsat" {
 						r.Solver += " (instantiated hypotheses)"
 						o.Res = r
